@@ -237,9 +237,16 @@ func (rt c01RoundTripper) RoundTrip(req *http.Request) (*http.Response, error) {
 
 var c01CurWorld *c01World
 
+// c01RT is the ClickHouse stub of the harness that is currently running (aggregator half or composition).
+var c01RT http.RoundTripper
+
+type c01RTProxy struct{}
+
+func (c01RTProxy) RoundTrip(req *http.Request) (*http.Response, error) { return c01RT.RoundTrip(req) }
+
 // makeHTTPClient replaces the redirected original (tools/vinstr -redirect makeHTTPClient).
 func makeHTTPClient() *http.Client {
-	return &http.Client{Transport: c01RoundTripper{w: c01CurWorld}}
+	return &http.Client{Transport: c01RTProxy{}}
 }
 
 var (
@@ -255,6 +262,7 @@ func c01NewAggregator(sc c01AggScenario, now time.Time) (*Aggregator, error) {
 	config.RemoteInitial.ClusterShardsAddrs = []string{"", "", ""}
 	config.KHAddr = "clickhouse:8123"
 	config.ShardByMetricShards = 1
+	config.RemoteInitial.DenyOldAgents = false // test builds have no commit timestamp
 	config.RecentInserters = sc.inserter
 	config.DisableRemoteConfig = true
 	a := &Aggregator{
@@ -296,6 +304,7 @@ func c01AggRun(x *mc.Exec, sc c01AggScenario, rep *mc.Report) mc.Verdict {
 	w := &c01World{x: x, fails: sc.fails}
 	w.conn = &c01AggConn{w: w, byQuery: map[int64]*c01Sent{}, hctxs: map[int64]*rpc.HandlerContext{}, finished: map[int64]int{}}
 	c01CurWorld = w
+	c01RT = c01RoundTripper{w: w}
 	finished := false
 	var agg *Aggregator
 	cleanup := func() {
